@@ -219,7 +219,9 @@ class Prog:
         """in-process redefinition: re-execute the modules in dependency order."""
         linecache.clearcache()
         importlib.invalidate_caches()
-        order = list(self.spec["modules"]) + (["reexp"] if self.spec.get("reexport") else [])
+        order = list(self.spec["modules"])
+        if self.spec.get("reexport"):
+            order = order[:-1] + ["reexp"] + order[-1:]   # sources, then the re-exporting module, then its importer
         if self.spec.get("ext") and (self.xpkg + ".util") in sys.modules:
             importlib.reload(sys.modules[self.xpkg + ".util"])
         for m in order:
